@@ -28,9 +28,39 @@ Translated
               state, a name first bound inside the body (or a loop target) that is read after the loop
   while       py_while fuel (fun st => cond) (fun st => body) st;  same state rule; refused without "fuel"/"on_fuel"
   if          without return in either branch: joined through the tuple of the (live) names and local lists it changes
+
+Second pass (TIE2) -- lists of lists and translation-time ("static") sequences, all fail-closed:
+  "local_lists"    {"pieces": "list Q"}         element type of a local list created by `[]` (default: the numeric domain); every
+                                                append is checked against it
+  lists of lists   "lists": {"values": ("values", "list Q")}: `for xs in values` makes xs a list inside the body; xss[i] is a list,
+                   xss[i][j] a number; xs.shape[0] = py_len xs; `s + xs` / `xs + s` (scalar broadcast) = map (add s) xs;
+                   np.concatenate(xss) = concat xss; np.empty(shape=0, dtype=float) = nil; truthiness of a local Python list
+                   (`if pieces`, `while a and b`) = its length is not 0; `x = np.asarray(x, dtype=float)` on a list of the numeric
+                   domain is the identity (also on a loop target); `a, b = e1, e2` (no e_i reads a target) = two assignments
+  xs[::-1]         py_rev xs (= rev xs);  xs[a:] / xs[:b] / xs[a:b] with int bounds: py_slice xs a b
+  static values    a non-empty list literal, a list comprehension over a static sequence, enumerate / zip / zip(*x) /
+                   itertools.product(*x) of static sequences are evaluated AT TRANSLATION TIME to a sequence of known length whose
+                   leaves are Coq terms (or ints): `name = <static>` binds the name statically (no let); `for pat in <static>` is
+                   UNROLLED (body repeated with the pattern bound, static ints substituted as literals); `next(it)` as a statement
+                   drops the first item of a named iterator (product / zip / enumerate results are single-use iterators: they may
+                   only be consumed by `for`, `next`, unpacking, or anonymously as an argument); `a, b = zip(*rows)` unpacks.
+                   Static bindings are refused inside fold loops / joined ifs, and a `let` that re-binds a Coq name occurring in a
+                   live static term is refused (no capture).  `product` must be `from itertools import product` (emitter `checked`,
+                   key "require_imports": {"product": "itertools"}).
+  "static_tests"   {"model.dimension_model() == 1": True}   an `if` on that exact text is replaced by the chosen branch (the
+                   specialisation the generated definition is about; stated in its name)
+  "static_values"  {"grid.middle(a, b)": ["t0", "t1"]}      that exact expression is a static tuple with these component terms
+                   (the spec's reading of a tuple-valued call, e.g. an n-d singledispatch variant; covered by the spot check)
+  "float_to_int"   {"np.uint": "Qfloor"}                    `x = np.uint(e)` with a float e: x is a Python int, the Coq function
+                   Q -> Z given (truncation = floor for e >= 0; the equality lemma states that hypothesis)
+  "kw_calls"       {"model.mass": ("mass", ["a", "b"])}     call with exactly these keywords -> positional Coq call; a static
+                   sequence of terms passed as an argument is a Coq tuple (a 1-sequence is its component)
+  NOT translated (refused): early `return` / `break` / `continue` inside a loop body, comprehension filters, nested comprehension
+                   generators, deque/pop, np.insert / np.nonzero / fancy indexing.
 """
 import ast
 import copy
+import itertools
 import re
 
 import py2coq
@@ -38,6 +68,32 @@ from py2coq import Unsupported, src
 
 ELEM_ZERO = {"Z": "0%Z", "Q": "(0 # 1)", "R": "(IZR 0)"}
 ELEM_ADD = {"Z": "Z.add", "Q": "Qplus", "R": "Rplus"}
+
+
+class T(str):
+    """a Coq term of the function's numeric domain held as a static (translation-time) value"""
+
+
+class SSeq(list):
+    """a Python list / tuple / iterator whose length and items (T, int or SSeq) are known at translation time"""
+    iterator = False
+
+
+class _Resume(ast.stmt):
+    """marker appended to an unrolled loop body: continues with the next iteration (closure k)"""
+    _fields = ()
+
+
+def is_nested(el):
+    return el.startswith("list ")
+
+
+def zero_of(el):
+    return "nil" if is_nested(el) else ELEM_ZERO[el]
+
+
+def ty_of(el):
+    return f"({el})" if is_nested(el) else el
 
 
 def _names_loaded(nodes):
@@ -58,6 +114,15 @@ class Ext:
         self.loop_depth = 0
         self.while_count = 0
         ctx.join_live_only = True
+        # --- TIE2
+        self.local_list_types = dict(fn.get("local_lists", {}))               # local list name -> declared element type
+        self.py_lists = set()                                                 # local lists created by `[]` (Python lists, not arrays)
+        self.static = {}                                                      # python name -> T | int | SSeq
+        self.static_tests = dict(fn.get("static_tests", {}))
+        self.static_values = {k: list(v) for k, v in fn.get("static_values", {}).items()}   # python text -> component terms
+        self.kw_calls = {k: tuple(v) for k, v in fn.get("kw_calls", {}).items()}
+        self.nest = 0                                                         # > 0 inside a fold loop / while / joined if
+        self.fn_dom = ctx.dom
 
     # ------------------------------------------------------------------ typing
     def is_list(self, e):
@@ -72,7 +137,17 @@ class Ext:
             return self.is_list(e.args[0])
         if isinstance(e, ast.Subscript) and self.is_list(e.value) and self.lists[src(e.value)][1] == "Z":
             return True
+        if self.shape0(e) is not None:
+            return True
         return False
+
+    def shape0(self, e):
+        """xs.shape[0] of a known list -> the list's python text"""
+        if isinstance(e, ast.Subscript) and isinstance(e.value, ast.Attribute) and e.value.attr == "shape" \
+                and isinstance(e.slice, ast.Constant) and e.slice.value == 0 and type(e.slice.value) is int \
+                and self.is_list(e.value.value):
+            return src(e.value.value)
+        return None
 
     def int_shape(self, ctx, e):
         """True if e can be read as a Python-int expression (atoms, int literals, + - * // %, min/max/abs, unary -)"""
@@ -106,6 +181,8 @@ class Ext:
             return ctx.rename.get(e.id, e.id)
         if isinstance(e, ast.Attribute) and src(e) in self.int_attrs:
             return self.int_attrs[src(e)]
+        if self.shape0(e) is not None:
+            return f"(py_len {self.lists[self.shape0(e)][0]})"
         if isinstance(e, ast.Call) and not e.keywords:
             f = src(e.func)
             if f == "len" and len(e.args) == 1 and self.is_list(e.args[0]):
@@ -141,6 +218,46 @@ class Ext:
             return self.lists[src(e)]
         if isinstance(e, ast.List) and not e.elts:
             return "nil", ctx.dom
+        if isinstance(e, ast.Subscript) and isinstance(e.slice, ast.Slice):
+            inner = self.list_expr(ctx, e.value)
+            if inner is None:
+                return None
+            t, el = inner
+            sl = e.slice
+            if sl.lower is None and sl.upper is None and sl.step is not None and src(sl.step) == "-1":
+                return f"(py_rev {t})", el                               # xs[::-1]
+            if sl.step is None and (sl.lower is not None or sl.upper is not None):
+                for b in (sl.lower, sl.upper):
+                    if b is not None and not self.int_shape(ctx, b):
+                        raise Unsupported(f"slice bound {src(b)}")
+                lo = f"(Some {self.zx(ctx, sl.lower)})" if sl.lower is not None else "None"
+                hi = f"(Some {self.zx(ctx, sl.upper)})" if sl.upper is not None else "None"
+                return f"(py_slice {t} {lo} {hi})", el
+            raise Unsupported(f"slice {src(e)}")
+        if isinstance(e, ast.Subscript):                                 # xss[i] of a list of lists
+            inner = self.list_expr(ctx, e.value)
+            if inner is not None and is_nested(inner[1]):
+                return f"(py_nth nil {inner[0]} {self.zx(ctx, e.slice)})", inner[1][len("list "):]
+            return None
+        if isinstance(e, ast.BinOp) and isinstance(e.op, ast.Add):       # scalar + array (numpy broadcast)
+            l, r = self.list_expr(ctx, e.left), self.list_expr(ctx, e.right)
+            if (l is None) != (r is None):
+                t, el = l or r
+                if el != ctx.dom or el == "Z":
+                    raise Unsupported(f"broadcast over a list of {el}: {src(e)}")
+                if l is None:
+                    return f"(map ({ELEM_ADD[el]} {py2coq.expr(ctx, e.left)}) {t})", el
+                return f"(map (fun x__ => {ELEM_ADD[el]} x__ {py2coq.expr(ctx, e.right)}) {t})", el
+            if l is not None:
+                raise Unsupported(f"list + list: {src(e)}")
+            return None
+        if isinstance(e, ast.IfExp):
+            a, b = self.list_expr(ctx, e.body), self.list_expr(ctx, e.orelse)
+            if a is None and b is None:
+                return None
+            if a is None or b is None or a[1] != b[1]:
+                raise Unsupported(f"conditional expression with one list branch: {src(e)}")
+            return f"(if {py2coq.bexpr(ctx, e.test)} then {a[0]} else {b[0]})", a[1]
         if isinstance(e, ast.Call):
             f = src(e.func)
             kw = {k.arg: src(k.value) for k in e.keywords}
@@ -155,15 +272,64 @@ class Ext:
                 if inner is None:
                     raise Unsupported(f"np.cumsum of {src(e.args[0])}")
                 t, el = inner
+                if is_nested(el):
+                    raise Unsupported(f"np.cumsum of a list of lists: {src(e)}")
                 return f"(py_cumsum {ELEM_ADD[el]} {ELEM_ZERO[el]} {t})", el
+            if f == "np.concatenate" and len(e.args) == 1 and not e.keywords:
+                inner = self.list_expr(ctx, e.args[0])
+                if inner is None or not is_nested(inner[1]):
+                    raise Unsupported(f"np.concatenate of {src(e.args[0])}")
+                return f"(concat {inner[0]})", inner[1][len("list "):]
+            if f == "np.empty" and ((not e.args and kw in ({"shape": "0"}, {"shape": "0", "dtype": "float"}))
+                                    or (len(e.args) == 1 and src(e.args[0]) == "0" and kw in ({}, {"dtype": "float"}))):
+                return "nil", ctx.dom                                    # an array without elements has no uninitialised content
         return None
 
     # ------------------------------------------------------------------ py2coq hooks
     def expr(self, ctx, e):
+        if isinstance(e, ast.Name) and e.id in self.static:
+            v = self.static[e.id]
+            if isinstance(v, T):
+                return str(v)
+            if isinstance(v, int) and not isinstance(v, bool):
+                return py2coq.lit(ctx, v)
+            raise Unsupported(f"static sequence {e.id} used as a number")
+        if isinstance(e, ast.Subscript) and self.static_index(e) is not None:
+            seq_, k = self.static_index(e)
+            if isinstance(seq_[k], T):
+                return str(seq_[k])
+            if type(seq_[k]) is int:
+                return py2coq.lit(ctx, seq_[k])
+            raise Unsupported(f"{src(e)}: a static sequence used as a number")
+        if isinstance(e, ast.Call) and src(e.func) in self.kw_calls:
+            coq, names = self.kw_calls[src(e.func)]
+            kws = {k.arg: k.value for k in e.keywords}
+            if e.args or sorted(kws) != sorted(names):
+                raise Unsupported(f"{src(e)}: expected exactly the keywords {list(names)}")
+            return "(" + " ".join([coq] + [self.argterm(ctx, kws[n]) for n in names]) + ")"
+        if isinstance(e, (ast.Subscript, ast.BinOp, ast.IfExp)) and not self.is_list(e):
+            le = self.list_expr(ctx, e)
+            if le is not None:
+                return le[0]
+        if isinstance(e, ast.Subscript) and not self.is_list(e) and not isinstance(e.slice, ast.Slice) \
+                and not self.is_list(e.value) and self.shape0(e) is None:
+            inner = self.list_expr(ctx, e.value) if isinstance(e.value, ast.Subscript) else None
+            if inner is not None:                                        # xss[i][j]
+                t0, el = inner
+                if is_nested(el):
+                    raise Unsupported(f"{src(e)}: still a list")
+                t = f"(py_nth {ELEM_ZERO[el]} {t0} {self.zx(ctx, e.slice)})"
+                if el == "Z" and ctx.dom != "Z":
+                    return self.inject(ctx, t)
+                if el != ctx.dom and el != "Z":
+                    raise Unsupported(f"{src(e)}: list of {el} in a {ctx.dom} function")
+                return t
         if isinstance(e, ast.Subscript) and self.is_list(e.value) and not self.is_list(e):
             name, el = self.lists[src(e.value)]
             if isinstance(e.slice, ast.Slice):
                 raise Unsupported(f"slice {src(e)}")
+            if is_nested(el):
+                raise Unsupported(f"{src(e)}: a list where a number is expected")
             t = f"(py_nth {ELEM_ZERO[el]} {name} {self.zx(ctx, e.slice)})"
             if el == "Z" and ctx.dom != "Z":
                 return self.inject(ctx, t)
@@ -184,6 +350,10 @@ class Ext:
         return None
 
     def bexpr(self, ctx, e):
+        if isinstance(e, ast.Name) and e.id in self.lists:
+            if e.id not in self.py_lists:
+                raise Unsupported(f"truthiness of {e.id}, which is not a local Python list")
+            return f"(negb (Z.eqb (py_len {self.lists[e.id][0]}) (0)%Z))"
         if not isinstance(e, (ast.Compare, ast.Constant)) and self.is_int(ctx, e):
             return f"(negb (Z.eqb {self.zx(ctx, e)} (0)%Z))"          # truthiness of a Python int
         if isinstance(e, ast.Compare):
@@ -204,12 +374,175 @@ class Ext:
                 return t
         return None
 
+    # ------------------------------------------------------------------ static (translation-time) sequences
+    def subst_ints(self, node):
+        """copy of the node with the statically known int names replaced by literals"""
+        ints = {k: v for k, v in self.static.items() if isinstance(v, int) and not isinstance(v, bool)}
+        node = copy.deepcopy(node)
+        if not ints:
+            return node
+
+        class Tr(ast.NodeTransformer):
+            def visit_Name(self, n):
+                if n.id in ints and isinstance(n.ctx, ast.Load):
+                    return ast.copy_location(ast.Constant(value=ints[n.id]), n)
+                return n
+        return ast.fix_missing_locations(Tr().visit(node))
+
+    def is_static_expr(self, e):
+        if src(e) in self.static_values:
+            return True
+        if isinstance(e, ast.Name):
+            return e.id in self.static
+        if isinstance(e, ast.List):
+            return bool(e.elts)
+        if isinstance(e, ast.ListComp):
+            return True
+        if self.static_index(e) is not None:
+            return True
+        if isinstance(e, ast.Call) and isinstance(e.func, ast.Name) and e.func.id in ("enumerate", "zip", "product"):
+            return all(self.is_static_expr(a.value if isinstance(a, ast.Starred) else a) for a in e.args) and bool(e.args)
+        return False
+
+    def static_index(self, e):
+        """row[i]: a literal index into a named static sequence (not an iterator) -> (sequence, index)"""
+        if isinstance(e, ast.Subscript) and isinstance(e.value, ast.Name) and isinstance(self.static.get(e.value.id), SSeq) \
+                and not self.static[e.value.id].iterator:
+            i = e.slice
+            k = i.value if isinstance(i, ast.Constant) else \
+                -i.operand.value if isinstance(i, ast.UnaryOp) and isinstance(i.op, ast.USub) and isinstance(i.operand, ast.Constant) else None
+            seq_ = self.static[e.value.id]
+            if type(k) is int and -len(seq_) <= k < len(seq_):
+                return seq_, k
+        return None
+
+    def sarg(self, ctx, e):
+        """static sequence passed as an argument: a NAMED iterator may not be passed on (it would be shared)"""
+        v = self.sval(ctx, e)
+        if not isinstance(v, SSeq):
+            raise Unsupported(f"{src(e)}: not a static sequence")
+        if v.iterator and isinstance(e, ast.Name):
+            raise Unsupported(f"the iterator {e.id} is passed on (single-use)")
+        return v
+
+    def sitem(self, ctx, e):
+        if self.is_static_expr(e):
+            return self.sval(ctx, e)
+        return T(py2coq.expr(ctx, self.subst_ints(e)))
+
+    def sval(self, ctx, e):
+        """value of a static expression (see is_static_expr)"""
+        if src(e) in self.static_values:
+            return SSeq(T(t) for t in self.static_values[src(e)])
+        if isinstance(e, ast.Name) and e.id in self.static:
+            return self.static[e.id]
+        if isinstance(e, ast.List) and e.elts:
+            return SSeq(self.sitem(ctx, x) for x in e.elts)
+        if self.static_index(e) is not None:
+            seq_, k = self.static_index(e)
+            return seq_[k]
+        if isinstance(e, ast.ListComp):
+            if len(e.generators) != 1 or e.generators[0].ifs or e.generators[0].is_async:
+                raise Unsupported(f"comprehension {src(e)}")
+            g = e.generators[0]
+            if not self.is_static_expr(g.iter):
+                raise Unsupported(f"comprehension over something that is not a static sequence: {src(e)}")
+            items = self.sarg(ctx, g.iter)
+            saved, out = dict(self.static), SSeq()
+            try:
+                for it in list(items):
+                    self.bind(ctx, g.target, it)
+                    out.append(self.sitem(ctx, e.elt))
+            finally:
+                self.static = saved                     # the comprehension's own scope
+            return out
+        if isinstance(e, ast.Call) and isinstance(e.func, ast.Name) and not e.keywords and self.is_static_expr(e):
+            f = e.func.id
+            starred = len(e.args) == 1 and isinstance(e.args[0], ast.Starred)
+            if starred:
+                rows = self.sarg(ctx, e.args[0].value)
+                if not all(isinstance(r, SSeq) and not r.iterator for r in rows):
+                    raise Unsupported(f"{src(e)}: the starred argument is not a sequence of sequences")
+                rows = [list(r) for r in rows]
+            elif any(isinstance(a, ast.Starred) for a in e.args):
+                raise Unsupported(f"{src(e)}")
+            else:
+                rows = [list(self.sarg(ctx, a)) for a in e.args]
+            if f == "enumerate" and len(rows) == 1 and not starred:
+                out = SSeq(SSeq([k, x]) for k, x in enumerate(rows[0]))
+            elif f == "zip":
+                out = SSeq(SSeq(t) for t in zip(*rows))
+            elif f == "product" and starred:
+                if self.fn.get("require_imports", {}).get("product") != "itertools" or not self.fn.get("imports_checked__"):
+                    raise Unsupported("product(...) without the checked `from itertools import product`")
+                out = SSeq(SSeq(t) for t in itertools.product(*rows))
+            else:
+                raise Unsupported(f"{src(e)}")
+            out.iterator = True
+            return out
+        raise Unsupported(f"not a static expression: {src(e)}")
+
+    def bind(self, ctx, pat, value):
+        if isinstance(pat, ast.Name):
+            if pat.id in ctx.int_names or pat.id in self.lists or pat.id in {n for n, _ in self.fn.get("args", [])}:
+                raise Unsupported(f"static binding of the declared name {pat.id}")
+            self.static[pat.id] = value
+            return
+        if isinstance(pat, (ast.Tuple, ast.List)) and isinstance(value, SSeq) and not any(isinstance(x, ast.Starred) for x in pat.elts):
+            items = list(value)
+            if value.iterator:
+                del value[:]                            # unpacking consumes an iterator
+            if len(items) != len(pat.elts):
+                raise Unsupported(f"unpacking {len(items)} static items into {src(pat)}")
+            for p_, v_ in zip(pat.elts, items):
+                self.bind(ctx, p_, v_)
+            return
+        raise Unsupported(f"static binding of {src(pat)}")
+
+    def argterm(self, ctx, e):
+        if self.is_static_expr(e):
+            v = self.sval(ctx, e)
+            if isinstance(v, SSeq):
+                if v.iterator or not v or not all(isinstance(x, T) for x in v):
+                    raise Unsupported(f"{src(e)}: not a static tuple of numbers")
+                return str(v[0]) if len(v) == 1 else "(" + ", ".join(v) + ")"
+        return py2coq.expr(ctx, e)
+
+    def static_idents(self):
+        out = set()
+
+        def walk(v):
+            if isinstance(v, T):
+                out.update(re.findall(r"[A-Za-z_][A-Za-z_0-9']*", v))
+            elif isinstance(v, SSeq):
+                for x in v:
+                    walk(x)
+        for v in self.static.values():
+            walk(v)
+        return out
+
+    def guard_rebind(self, ctx, name):
+        """a `let name := ...` is about to be emitted: no live static term may mention that Coq name"""
+        self.static.pop(name, None)
+        if ctx.rename.get(name, name) in self.static_idents():
+            raise Unsupported(f"{name} is re-bound while a static value still refers to it")
+
+    def is_noop(self, s):
+        """x = np.asarray(x, dtype=float) / np.array(x, dtype=float) on a known list of the numeric domain"""
+        if isinstance(s, ast.Assign) and len(s.targets) == 1 and isinstance(s.targets[0], ast.Name) and isinstance(s.value, ast.Call):
+            c, n = s.value, s.targets[0].id
+            if src(c.func) in ("np.asarray", "np.array") and len(c.args) == 1 and isinstance(c.args[0], ast.Name) \
+                    and c.args[0].id == n and {k.arg: src(k.value) for k in c.keywords} in ({}, {"dtype": "float"}) \
+                    and n in self.lists and self.lists[n][1] == self.fn_dom:
+                return True
+        return False
+
     # ------------------------------------------------------------------ statements
     def type_of(self, ctx, name):
         if name in ctx.int_names:
             return "Z"
         if name in self.lists:
-            return f"(list {self.lists[name][1]})"
+            return f"(list {ty_of(self.lists[name][1])})"
         return ctx.d["ty"]
 
     def changed(self, stmts):
@@ -218,6 +551,8 @@ class Ext:
 
         def visit(ss):
             for s in ss:
+                if self.is_noop(s):
+                    continue
                 if isinstance(s, ast.Assign):
                     for t in s.targets:
                         if isinstance(t, ast.Name):
@@ -300,13 +635,84 @@ class Ext:
         if self.is_list(it):
             x = name(tg)
             ln, el = self.lists[src(it)]
+            if is_nested(el):
+                return ln, x, ty_of(el), {x: "list:" + el[len("list "):]}
             return ln, x, el, {x: "int" if el == "Z" else "num"}
         raise Unsupported(f"iterable {src(it)}")
 
     def stmt(self, ctx, s, rest, tail, on_raise):
         go = lambda: py2coq.block(ctx, rest, tail, on_raise)
+        if isinstance(s, _Resume):
+            return s.k()
         if src(s) in self.skip:
             return go()
+        if self.is_noop(s):
+            return go()
+        # ---- TIE2: an `if` decided by the specialisation the definition is about
+        if isinstance(s, ast.If) and src(s.test) in self.static_tests:
+            chosen = s.body if self.static_tests[src(s.test)] else s.orelse
+            return py2coq.block(ctx, list(chosen) + list(rest), tail, on_raise)
+        # ---- TIE2: a, b = e1, e2  (no e_i reads a target): two assignments
+        if isinstance(s, ast.Assign) and len(s.targets) == 1 and isinstance(s.targets[0], ast.Tuple) and isinstance(s.value, ast.Tuple) \
+                and len(s.targets[0].elts) == len(s.value.elts) and all(isinstance(x, ast.Name) for x in s.targets[0].elts) \
+                and not (_names_loaded(s.value.elts) & {x.id for x in s.targets[0].elts}) \
+                and len({x.id for x in s.targets[0].elts}) == len(s.value.elts):
+            parts = [ast.copy_location(ast.Assign(targets=[t_], value=v_), s) for t_, v_ in zip(s.targets[0].elts, s.value.elts)]
+            return py2coq.block(ctx, [ast.fix_missing_locations(a_) for a_ in parts] + list(rest), tail, on_raise)
+        # ---- TIE2: static sequences
+        if isinstance(s, ast.Assign) and len(s.targets) == 1 and self.is_static_expr(s.value) \
+                and not (isinstance(s.value, ast.Name) and not isinstance(self.static[s.value.id], SSeq)):
+            if self.nest:
+                raise Unsupported(f"static binding inside a loop / joined if: {src(s)}")
+            v = self.sval(ctx, s.value)
+            if isinstance(s.value, ast.Name) and isinstance(v, SSeq):
+                raise Unsupported(f"alias of the static sequence {s.value.id}")
+            self.bind(ctx, s.targets[0], v)
+            return go()
+        if isinstance(s, ast.Expr) and isinstance(s.value, ast.Call) and src(s.value.func) == "next":
+            c = s.value
+            if len(c.args) != 1 or c.keywords or not isinstance(c.args[0], ast.Name) or not isinstance(self.static.get(c.args[0].id), SSeq) \
+                    or not self.static[c.args[0].id].iterator:
+                raise Unsupported(f"{src(s)}: not a static iterator")
+            if self.nest:
+                raise Unsupported(f"{src(s)} inside a loop / joined if")
+            it = self.static[c.args[0].id]
+            if not it:
+                raise Unsupported(f"{src(s)}: the iterator is exhausted (StopIteration)")
+            del it[0]
+            return go()
+        if isinstance(s, ast.For) and self.is_static_expr(s.iter):
+            if s.orelse:
+                raise Unsupported("for ... else")
+            if self.nest:
+                raise Unsupported("unrolled loop inside a loop / joined if")
+            self.check_loop_body(s.body)
+            seq_ = self.sval(ctx, s.iter)
+            if not isinstance(seq_, SSeq):
+                raise Unsupported(f"iterable {src(s.iter)}")
+            items = list(seq_)
+            if seq_.iterator:
+                del seq_[:]
+
+            def unroll(i):
+                if i == len(items):
+                    return go()
+                self.bind(ctx, s.target, items[i])
+                body = [self.subst_ints(st) for st in s.body]
+                m = _Resume()
+                m.k = lambda: unroll(i + 1)
+                return py2coq.block(ctx, body + [m], tail, on_raise)
+            return unroll(0)
+        # ---- a generic `let` must not capture a name that a live static term mentions
+        if isinstance(s, ast.Assign):
+            for t_ in s.targets:
+                for n_ in ([t_] if isinstance(t_, ast.Name) else list(t_.elts) if isinstance(t_, ast.Tuple) else []):
+                    if isinstance(n_, ast.Name):
+                        self.guard_rebind(ctx, n_.id)
+        if isinstance(s, ast.AugAssign) and isinstance(s.target, ast.Name):
+            if isinstance(self.static.get(s.target.id), SSeq):
+                raise Unsupported(f"augmented assignment to the static sequence {s.target.id}")
+            self.guard_rebind(ctx, s.target.id)
         # ---- return of a Python int
         if isinstance(s, ast.Return) and self.fn.get("ret_int"):
             if s.value is None or not self.int_shape(ctx, s.value):
@@ -321,12 +727,28 @@ class Ext:
                     if t.id in ctx.int_names:
                         raise Unsupported(f"{t.id}: int name re-bound to a list")
                     term, el = le
+                    if isinstance(v, ast.List):
+                        el = self.local_list_types.get(t.id, el)
+                        self.py_lists.add(t.id)
+                    elif t.id in self.local_list_types and self.local_list_types[t.id] != el:
+                        raise Unsupported(f"{t.id}: declared list of {self.local_list_types[t.id]}, bound to a list of {el}")
+                    else:
+                        self.py_lists.discard(t.id)
                     self.lists[t.id] = (n, el)
                     self.local_lists.add(t.id)
                     self.defined.add(t.id)
                     return f"let {n} := {term} in\n  {go()}"
                 if t.id in self.lists:
                     raise Unsupported(f"list {t.id} re-bound to a non-list: {src(s)}")
+                if isinstance(v, ast.Call) and src(v.func) in self.fn.get("float_to_int", {}) and len(v.args) == 1 and not v.keywords \
+                        and not self.int_shape(ctx, v.args[0]):
+                    if ctx.dom != "Q":
+                        raise Unsupported(f"{src(v)}: float -> int conversions are read in the Q domain only")
+                    self.guard_rebind(ctx, t.id)
+                    term = f"({self.fn['float_to_int'][src(v.func)]} {py2coq.expr(ctx, v.args[0])})"
+                    ctx.int_names.add(t.id)
+                    self.defined.add(t.id)
+                    return f"let {n} := {term} in\n  {go()}"
                 if self.is_int(ctx, v) or (t.id in ctx.int_names and self.int_shape(ctx, v)):
                     term = self.zx(ctx, v)
                     ctx.int_names.add(t.id)
@@ -368,7 +790,15 @@ class Ext:
             if not (isinstance(c.func.value, ast.Name) and c.func.value.id in self.local_lists and len(c.args) == 1 and not c.keywords):
                 raise Unsupported(f"append to something that is not a local list: {src(s)}")
             ln, el = self.lists[c.func.value.id]
-            val = self.zx(ctx, c.args[0]) if el == "Z" else py2coq.expr(ctx, c.args[0])
+            if is_nested(el):
+                inner = self.list_expr(ctx, c.args[0])
+                if inner is None or f"list {inner[1]}" != el:
+                    raise Unsupported(f"{src(s)}: the list holds {el}")
+                val = inner[0]
+            else:
+                if self.list_expr(ctx, c.args[0]) is not None:
+                    raise Unsupported(f"{src(s)}: a list appended to a list of {el} (declare it in local_lists)")
+                val = self.zx(ctx, c.args[0]) if el == "Z" else py2coq.expr(ctx, c.args[0])
             return f"let {ln} := ({ln} ++ cons {val} nil) in\n  {go()}"
         # ---- if without return: join the live names / local lists it changes
         if isinstance(s, ast.If) and not py2coq.always_returns(s.body) and not (s.orelse and py2coq.always_returns(s.orelse)):
@@ -382,11 +812,15 @@ class Ext:
             pat = "'" + join if len(names) > 1 else join
             test = py2coq.bexpr(ctx, s.test)
             ints0, lists0, loc0, def0 = set(ctx.int_names), dict(self.lists), set(self.local_lists), set(self.defined)
-            a = py2coq.block(ctx, s.body, join, on_raise)
-            ints1 = set(ctx.int_names)
-            ctx.int_names.clear(); ctx.int_names.update(ints0)
-            self.lists, self.local_lists, self.defined = dict(lists0), set(loc0), set(def0)
-            b = py2coq.block(ctx, s.orelse, join, on_raise)
+            self.nest += 1
+            try:
+                a = py2coq.block(ctx, s.body, join, on_raise)
+                ints1 = set(ctx.int_names)
+                ctx.int_names.clear(); ctx.int_names.update(ints0)
+                self.lists, self.local_lists, self.defined = dict(lists0), set(loc0), set(def0)
+                b = py2coq.block(ctx, s.orelse, join, on_raise)
+            finally:
+                self.nest -= 1
             if {v for v in vs if v in ints1} != {v for v in vs if v in ctx.int_names}:
                 raise Unsupported("a joined name is an int in one branch only")
             self.defined |= set(vs)
@@ -396,13 +830,29 @@ class Ext:
                 raise Unsupported("for ... else")
             self.check_loop_body(s.body)
             items, ipat, ity, kinds = self.items(ctx, s)
-            carried, tup, pat, ty = self.loop_state(ctx, s, rest, list(kinds))
-            ints0, def0 = set(ctx.int_names), set(self.defined)
+            ints0, def0, lists0 = set(ctx.int_names), set(self.defined), dict(self.lists)
+            for k, v in kinds.items():
+                if v.startswith("list:"):                 # an item of a list of lists is a list inside the body
+                    self.lists[k] = (k, v[len("list:"):])
+            try:
+                carried, tup, pat, ty = self.loop_state(ctx, s, rest, list(kinds))
+            except Unsupported:
+                self.lists = lists0
+                raise
             ctx.int_names.update(k for k, v in kinds.items() if v == "int")
             self.defined |= set(kinds)
-            body = py2coq.block(ctx, s.body, tup, None)
+            self.nest += 1
+            try:
+                body = py2coq.block(ctx, s.body, tup, None)
+            finally:
+                self.nest -= 1
             ctx.int_names.clear(); ctx.int_names.update(ints0)
             self.defined = def0
+            for k, v in kinds.items():
+                if v.startswith("list:"):
+                    self.lists.pop(k, None)
+                    if k in lists0:
+                        self.lists[k] = lists0[k]
             return (f"let {pat} := (fold_left (fun (st__ : {ty}) (it__ : {ity}) =>\n    let {pat} := st__ in let {ipat} := it__ in\n    {body})\n"
                     f"    {items} {tup}) in\n  {go()}")
         if isinstance(s, ast.While):
@@ -416,7 +866,11 @@ class Ext:
             cond_names = _names_loaded([s.test])
             ints0, def0 = set(ctx.int_names), set(self.defined)
             cond = py2coq.bexpr(ctx, s.test)
-            body = py2coq.block(ctx, s.body, tup, None)
+            self.nest += 1
+            try:
+                body = py2coq.block(ctx, s.body, tup, None)
+            finally:
+                self.nest -= 1
             ctx.int_names.clear(); ctx.int_names.update(ints0)
             self.defined = def0
             return (f"match py_while {fuel}\n    (fun (st__ : {ty}) => let {pat} := st__ in {cond})\n"
@@ -448,3 +902,26 @@ def registered(tree, spec, fn):
     fn2 = {k: v for k, v in fn.items() if k not in ("emitter", "variant_of")}
     fn2["py"] = "registered_variant__"
     return py2coq.translate_function(fake, spec, fn2)
+
+
+def checked(tree, spec, fn):
+    """emitter: verifies fn["require_imports"] = {name: module} -- the module-level `from <module> import <name>` exists and the
+    name is bound nowhere else at module level or inside the function -- then translates with the generic machinery"""
+    req = fn.get("require_imports", {})
+    node = py2coq.find_function(tree, fn["py"])
+    for name, module in req.items():
+        imports = [n for n in tree.body if isinstance(n, ast.ImportFrom) and n.module == module and n.level == 0
+                   and any(a.name == name and a.asname is None for a in n.names)]
+        others = [n for n in tree.body
+                  if (isinstance(n, (ast.FunctionDef, ast.ClassDef)) and n.name == name)
+                  or (isinstance(n, (ast.Import, ast.ImportFrom)) and n not in imports
+                      and any((a.asname or a.name.split(".")[0]) == name for a in n.names))
+                  or (isinstance(n, (ast.Assign, ast.AugAssign, ast.AnnAssign))
+                      and any(isinstance(x, ast.Name) and x.id == name and isinstance(x.ctx, ast.Store) for x in ast.walk(n)))]
+        local = [x for x in ast.walk(node) if (isinstance(x, ast.Name) and x.id == name and isinstance(x.ctx, ast.Store))
+                 or (isinstance(x, ast.arg) and x.arg == name)]
+        if len(imports) != 1 or others or local:
+            raise Unsupported(f"{fn['py']}: `{name}` is not (only) `from {module} import {name}`")
+    fn2 = {k: v for k, v in fn.items() if k != "emitter"}
+    fn2["imports_checked__"] = True
+    return py2coq.translate_function(tree, spec, fn2)
